@@ -16,7 +16,7 @@ CHECKS = {
          "Reference fold (C01 reference + adjacency) and the harness header type's Verify are trusted.", "2.1 C02"),
  "C04": ("E1-seqx", "model_checking",
          "explicit-state BFS over operation histories on the real store.Store (replay-from-scratch successors, state dedup), invariant oracle in every state",
-         "Breadth-first exploration of every history (depth 3 quick / 4 thorough) over Append of all contiguous slices (len<=3, thorough: gapped pairs), tail/head/whole/middle/beyond DeleteRange, Restart and ReadAll, for batch sizes {1,2,(3),64} x cache sizes {2,default} x {plain, context-aware+txn} datastore, on the real Store inside a synctest bubble; in every reached state the C04 clauses (gap-free Tail..Head, lookups by height/hash agree, Has/HasAt, all GetRange pairs, Height==Head, Head top of run, every live header readable) are evaluated against a set-of-live-heights model.",
+         "Breadth-first exploration of every history (depth 3 quick / 4 thorough) over Append of all contiguous slices (len<=3, ascending and reversed; thorough: gapped pairs), tail/head/whole/middle/beyond DeleteRange, Append directly followed by DeleteRange on a slow datastore (flush still in flight), Restart and ReadAll, for batch sizes {1,2,(3),64} x cache sizes {2,default} x {plain, context-aware+txn} datastore, on the real Store inside a synctest bubble; in every reached state the C04 clauses (gap-free Tail..Head, lookups by height/hash agree, Has/HasAt, all GetRange pairs, Height==Head, Head top of run, every live header readable) are evaluated against a set-of-live-heights model.",
          "State key omits 2Q ghost lists; chain of 5-6 headers; Sync+quiescence after each op (the property is stated for synced writes).", "2.2 C04"),
  "C08": ("E1-seqx", "model_checking",
          "explicit-state enumeration: every reachable store state x every (from,to) pair x continuation x single write-fault position, executed on the real store and compared with the reference model",
@@ -36,11 +36,11 @@ CHECKS = {
          "mocknet transport with a deadline decorator; forged headers carry a foreign signature (no equivocation by key holders).", "2.4 C05"),
  "C09": ("E1-netx", "model_checking",
          "exhaustive enumeration of ordered arrival sequences of peer answers (imposed by release gates) against the real Exchange.Head, compared step by step with a reference fold of the quorum rule",
-         "Every ordered sequence over {A, A' conflicting, B higher, older, error, hang} for 1-4 (reduced alphabet: 5, thorough 6) trusted peers and over {A, A', B, hard x2, soft, error, hang} for 1-4 tracked peers with WithTrustedHead; after each single arrival the harness observes whether Head has returned, so 'returns as soon as a quorum exists', quorum arithmetic per n, highest-head fallback, ErrNotFound, soft-failure pairing and never returning hard-failing heads are all decided per sequence.",
+         "Every ordered sequence over {A, A' conflicting, B higher, older, error, hang} for 1-4 (reduced alphabet: 5, thorough 6) trusted peers and over {A, A', B, hard x2, soft, error, hang} for 1-4 tracked peers with WithTrustedHead (1-2 peers also with every peer disconnected beforehand, i.e. the fallback to trusted peers); after each single arrival the harness observes whether Head has returned, so 'returns as soon as a quorum exists', quorum arithmetic per n, highest-head fallback, ErrNotFound, soft-failure pairing and never returning hard-failing heads are all decided per sequence.",
          "More than 4 tracked peers (random subset of map order) is not enumerated; hang + caller deadline coincidences accept either allowed outcome.", "2.4 C09"),
  "C10": ("E1-netx", "model_checking",
          "exhaustive enumeration of the request input product (origin x amount relative to tail/head incl. overflow, hashes, raw frames) against the real ExchangeServer over a real pruned store behind a recording proxy",
-         "All (origin, amount) pairs over 12 x 9 boundary values, hash and raw-byte requests, against stores [5..30], [1..12], empty (thorough: [40..200]); oracle on reply shape/content and on work: headers asked from the store <= min(amount,64), no store call outside the requested heights, datastore reads bounded.",
+         "All (origin, amount) pairs over 12 x 9 boundary values, hash and raw-byte requests, against stores [5..30], [1..12], [20..150], empty (thorough: [40..200], [1..70]); deviation bound 1: the store grows by {3,100} headers right after the k-th store call of a range request, for every k its fault-free run makes; oracle on reply shape/content and on work: headers asked from the store <= min(amount,64), no store call outside the requested heights, datastore reads bounded.",
          "Work measured at the Store interface and as datastore reads of the real store.", "2.4 C10"),
  "C11": ("E1-netx", "model_checking",
          "exhaustive enumeration of payload x verifier-outcome classes on the real topic validator, plus the same classes through real gossipsub (delivery and relay observed)",
@@ -56,11 +56,11 @@ CHECKS = {
          "At most one benign fault per run; servers use a simple honest in-memory store; in the schedule part a network round trip is atomic within the requesting thread's step.", "2.4 C18"),
  "C03": ("E1-syncx", "model_checking",
          "explicit-state BFS over environment event histories (gossip deliveries, Head() calls, held getter answers, clock advances) on the real Syncer + real Store, oracle in every state; plus stateless DFS over thread schedules of the instrumented sync package with preemption bounding",
-         "Event alphabet: deliver {next, skip 2/3, duplicate, stale, forged adjacent, forged far (bifurcation), bad link, wrong chain, future-dated}, Head(), answer of the held getter call {full, prefix, error}, advance {40s, 2h}; depth 4 quick / 6 thorough over trust ranges {unlimited, 2, (1)} and batch sizes; in every state: every stored header (datastore scan + pending) is the verified chain's header, the store is one run Tail..Head, every invalid delivery returned an error, no unverified header is pending / the sync target / the origin of a range request. Schedule part (engine E2 on the sync package): all schedules with <= 1 preemption (thorough <= 2) of concurrent gossip handler threads and the sync loop (target vs duplicate vs stale; three heads in any order; thorough: forged vs honest target); only chain headers stored in one run, every accepted head synced.",
+         "Event alphabet: deliver {next, skip 2/3, duplicate, stale, forged adjacent, forged far (bifurcation), bad link, wrong chain, future-dated}, Head(), answer of the held getter call {full, prefix, error}, advance {40s, 2h}; depth 4 quick / 6 thorough over trust ranges {unlimited, 2, (1)} and batch sizes; plus a lagging-peers pass (depth 6 / 8) where a held trusted-head request is answered with a soft-failing honest or forged header while gossip runs ahead; in every state: every stored header (datastore scan + pending) is the verified chain's header, the store is one run Tail..Head, every invalid delivery returned an error, no unverified header is pending / the sync target / the origin of a range request. Schedule part (engine E2 on the sync package): all schedules with <= 1 preemption (thorough <= 2) of concurrent gossip handler threads and the sync loop (target vs duplicate vs stale; three heads in any order; thorough: forged vs honest target); only chain headers stored in one run, every accepted head synced.",
          "Event granularity (bubble quiescence between events); while a delivery is parked in bifurcation no second delivery is issued (sync.Mutex blocking is invisible to synctest); zero headers are not delivered (the Subscriber never produces them).", "2.3 C03"),
  "C07": ("E1-syncx", "model_checking",
          "explicit-state BFS over event histories with an honest held getter on the real Syncer + Store; quiescent-state oracle plus a recovery probe from every quiescent state; plus stateless DFS over thread schedules of the instrumented sync package with preemption bounding",
-         "Events: deliver honest {next, skip 2, skip 3}, Head(), answer {full, prefix of 1, error}, advance 40s; depth 5 quick / 7 thorough. At every quiescent state: store head == highest verified head, State finished without error and SyncWait returns, unless a getter error aborted the attempt; and from every quiescent state one more valid head plus honest answers must complete the sync (so a lost trigger or wedged loop is a state, not a timeout). Schedule part: all schedules with <= 1 preemption (thorough <= 2) of head deliveries racing with the sync loop, getter calls and a controlled asynchronous store (burst of heads during a running sync; sequential A,B,C deliveries vs D; getter error then next head): the store head reaches the highest accepted head and no error is left.",
+         "Events: deliver honest {next, skip 2, skip 3}, Head(), answer {full, prefix of 1, error}, advance 40s; depth 5 quick / 7 thorough; plus a configuration with a stale head and trusted peers lagging behind gossip (a trusted-head request answered with the header gossip already delivered). At every quiescent state: store head == highest verified head, State finished without error and SyncWait returns, unless a getter error aborted the attempt; and from every quiescent state one more valid head plus honest answers must complete the sync (so a lost trigger or wedged loop is a state, not a timeout). Schedule part: all schedules with <= 1 preemption (thorough <= 2) of head deliveries racing with the sync loop, getter calls and a controlled asynchronous store (burst of heads during a running sync; sequential A,B,C deliveries vs D; getter error then next head): the store head reaches the highest accepted head and no error is left.",
          "Event granularity; liveness is evaluated at bubble quiescence in virtual time.", "2.3 C07"),
  "C15": ("E1-syncx", "model_checking",
          "exhaustive enumeration of (distance, trust range, candidate kind, failing fetch position) on the real gossip verifier with a real store",
